@@ -60,6 +60,9 @@ type env struct {
 	targets   map[string]string // virtual port -> real address (for the upstream proxy's tunnels)
 	routes    []forwarder.HostPortPair // the --connect-to rules of every proxy instance
 	uploads   sync.Map                 // case id -> *uploadSeen: what the origin read of an upload case's request
+	// mk starts one more proxy instance the way newEnv starts all of them (lattice.go: the instances of the batch's
+	// dialtl cases, started before any case runs)
+	mk func(name, upstream string, mitm, tlsListener, handler bool, reg *prometheus.Registry, logMode string) error
 }
 
 const probeBody = "probe-ok"
@@ -399,6 +402,11 @@ func newEnv(root string) (*env, error) {
 					e.noteDial(name, address)
 					return network, address
 				}
+				if lp, ok := parseLatticeProxy(name); ok {
+					// the dial limits of this point of the lattice (lattice.go), retries as the product has them
+					tc.DialTimeout = lp.cfg.Dial
+					tc.Retry = forwarder.DialRetryConfig{Attempts: lp.cfg.Attempts, Backoff: lp.cfg.Backoff}
+				}
 			},
 			PostTransport: func(rt *http.Transport) { rt.DisableKeepAlives = true },
 			Configure: func(cfg *forwarder.HTTPProxyConfig) {
@@ -437,6 +445,12 @@ func newEnv(root string) (*env, error) {
 					// --basic-auth: the parser of Proxy-Authorization runs on every request (fields.go)
 					cfg.BasicAuth = url.UserPassword(authUser, authPass)
 				}
+				if lp, ok := parseLatticeProxy(name); ok {
+					cfg.ConnectTimeout = lp.cfg.Connect
+					if lp.scheme != "" {
+						cfg.UpstreamProxy = rig.MustURL(lp.scheme + "://upstream.test:" + portUpHole)
+					}
+				}
 			},
 			Credentials: credentialsFor(name),
 		})
@@ -466,6 +480,7 @@ func newEnv(root string) (*env, error) {
 			return nil, fmt.Errorf("proxy %s: %w", pd.name, err)
 		}
 	}
+	e.mk = mk
 	// the plain proxy again under every HTTP log mode of the product (logmode.go), both server variants
 	for _, m := range logModes() {
 		for _, h := range []bool{false, true} {
@@ -499,6 +514,8 @@ func (e *env) noteDial(proxy, address string) {
 func (e *env) proxyFor(c *Case) (string, *rig.Proxy) {
 	name := "direct"
 	switch {
+	case c.Kind == "dialtl":
+		name = latticeProxyName(c)
 	case c.LogMode != "":
 		name = logProxyName(c.LogMode, c.Server == "handler")
 	case c.Kind == "client" && c.Auth != "":
